@@ -19,7 +19,7 @@ Three groups of theorems (all for arbitrary type lists, states, files – nothin
                (`codeBeforeFix`) stays available; the lemmas about it live in Proofs/GenState.lean.
 * loop       – `Generate` over a type list yields, type by type, what separate processes yield
                (`oneAtATime`), and a permuted list yields the permuted outputs.
-* merge      – `MergeSources`: declarations, own doc comments, imports (first occurrence, no duplicates),
+* merge      – `MergeSources`: declarations, own doc comments (no layout premise since 102a5c2), imports (first occurrence, no duplicates),
                header and package of the first file.
 * facts      – every field of every Generator struct in the CURRENT source is classified, and the
                classification agrees with where the field is written.
@@ -123,9 +123,11 @@ theorem C08_merge_decls (f : File) (fs : List File) (o : Out) (h : merge (f :: f
   · cases h
   · cases h; exact fileLoop_texts (f :: fs)
 
-/-- each declaration carries its own comments (doc comment and inner comments) and nothing else -/
+/-- each declaration carries its own comments (its doc comment group and the comments inside it) and nothing
+    else.  Since fix 102a5c2 no assumption on the layout of the generated sources is needed; the premise is
+    the go/parser invariant that a doc comment ends before its declaration. -/
 theorem C08_merge_docs (f : File) (fs : List File) (o : Out) (h : merge (f :: fs) = .ok o)
-    (hl : (f :: fs).all layoutOK = true) : o.items = specItems (f :: fs) := by
+    (hl : (f :: fs).all docBefore = true) : o.items = specItems (f :: fs) := by
   simp only [merge] at h
   split at h
   · cases h
@@ -174,22 +176,22 @@ theorem C08_merge_imports_disjoint (fs : List File)
 
 def wStray : File :=
   { pkg := "rc", comments := [⟨0, 40, "Code generated"⟩, ⟨60, 80, "ShootRest exists"⟩, ⟨110, 118, "noop"⟩],
-    imports := [], decls := [⟨false, 81, 120, "func (c *client) ShootRest()"⟩, ⟨false, 122, 200, "func init()"⟩] }
+    imports := [], decls := [⟨false, 81, 120, "func (c *client) ShootRest()", some 60⟩, ⟨false, 122, 200, "func init()", none⟩] }
 
-/-- F_strayComment: the 10-byte proximity rule of `attachCommentsForDecl` also catches a comment that sits at the
-    end of the PREVIOUS declaration: the `/*noop*/` inside `ShootRest() { /*noop*/ }` is printed once more in front
-    of `func init()` in every all-in-one file of `shoot rest` -/
-theorem C08_F_strayComment_witness :
-    region [wStray] = "F_strayComment" ∧
-    (merge [wStray]).out?.map (·.items) = some [⟨["ShootRest exists", "noop"], "func (c *client) ShootRest()"⟩, ⟨["noop"], "func init()"⟩] ∧
-    specItems [wStray] = [⟨["ShootRest exists", "noop"], "func (c *client) ShootRest()"⟩, ⟨[], "func init()"⟩] := by
+/-- fixed by 102a5c2 (was F_strayComment): the `/*noop*/` inside `ShootRest() { /*noop*/ }` ends 4 bytes before
+    `func init()`; the old proximity rule attached it to `init` as well, the doc-group rule does not -/
+theorem C08_strayComment_fixed :
+    region [wStray] = "WF" ∧
+    (merge [wStray]).out?.map (·.items) = some (specItems [wStray]) ∧
+    specItems [wStray] = [⟨["ShootRest exists", "noop"], "func (c *client) ShootRest()"⟩, ⟨[], "func init()"⟩] ∧
+    (wStray.comments.filter (attachedBefore ⟨false, 122, 200, "func init()", none⟩)).map (·.text) = ["noop"] := by
   decide
 
 /-- composition: the all-in-one file of a combined run consists of the declarations (with their own doc
     comments) of the one-type files that separate processes write, in the same order -/
 theorem C08_allinone {σ τ ω : Type} (m : Machine σ τ ω) (hind : StateIndep m) (hst : ∀ o, m.stale o = true)
     (render : τ × ω → File) (disk : Disk) (ts : List τ) (o : Out)
-    (hl : ∀ x, layoutOK (render x) = true)
+    (hl : ∀ x, docBefore (render x) = true)
     (h : merge ((generate m disk ts).map render) = .ok o) :
     o.items = specItems ((oneAtATime m disk ts).map render) ∧
     o.imports = specImports ((oneAtATime m disk ts).map render) := by
@@ -249,10 +251,10 @@ example : (generate (mapMachine codeToday) [] [wMA, wMB]).map (·.2.toCtor) = [s
 
 def xf1 : File :=
   { pkg := "a", comments := [⟨0, 40, "Code generated"⟩, ⟨70, 90, "NewA constructs"⟩, ⟨150, 160, "noop"⟩],
-    imports := [{ path := "\"time\"" }], decls := [⟨true, 52, 65, "import \"time\""⟩, ⟨false, 91, 120, "func NewA()"⟩, ⟨false, 130, 170, "func (a A) ShootNew()"⟩] }
+    imports := [{ path := "\"time\"" }], decls := [⟨true, 52, 65, "import \"time\"", none⟩, ⟨false, 91, 120, "func NewA()", some 70⟩, ⟨false, 130, 170, "func (a A) ShootNew()", none⟩] }
 def xf2 : File :=
   { pkg := "a", comments := [⟨0, 40, "Code generated"⟩, ⟨70, 90, "NewB constructs"⟩],
-    imports := [{ path := "\"time\"" }, { path := "\"fmt\"" }], decls := [⟨true, 52, 65, "import"⟩, ⟨false, 91, 120, "func NewB()"⟩] }
+    imports := [{ path := "\"time\"" }, { path := "\"fmt\"" }], decls := [⟨true, 52, 65, "import", none⟩, ⟨false, 91, 120, "func NewB()", some 70⟩] }
 
 /-- merge theorems: two generated-looking files (header, import, doc comment, inner comment) are `WF`, and
     the merge keeps three declarations, attaches each doc comment to its own declaration and drops the
